@@ -189,7 +189,21 @@ class C17(Check):
                 indep = 'parse-error:' + repr(e)[:100]
             tag, attrib = nx.parse_root(xml)
             full = nx.to_ele(xml)
-            return {'mem': mem, 'back': back, 'indep': indep, 'ndecl': xml.count('<?xml'), 'starts_decl': xml.startswith('<?xml'),
+            # the documented `encoding` argument with the 7-bit encodings (non-ASCII characters then travel as character references): the
+            # text must still be what its own declaration says, for to_ele and for an independent parser reading it in that encoding
+            enc_back = {}
+            # (names have no escape mechanism in XML: a tree with a non-ASCII name or prefix has no 7-bit form at all - not judged)
+            names_ascii = all(ord(ch) < 128 for e in el.iter() if isinstance(e.tag, str)
+                              for ch in e.tag + ''.join(str(a) for a in e.attrib.keys()) + ''.join(str(p) for p in e.nsmap.keys() if p))
+            for enc in (('us-ascii', 'ASCII') if names_ascii else ()):
+                try:
+                    x2 = nx.to_xml(el, encoding=enc)
+                    b2 = X.canon(X.from_lxml(nx.to_ele(x2)))
+                    i2 = X.canon(X.from_lxml(ET.fromstring(x2.encode('utf-8'))))
+                    enc_back[enc] = 'same' if (b2 == mem and i2 == X.canon(X.drop_comments(mem))) else 'differs'
+                except Exception as e:
+                    enc_back[enc] = 'exc:' + type(e).__name__ + ': ' + str(e)[:60]
+            return {'mem': mem, 'back': back, 'indep': indep, 'ndecl': xml.count('<?xml'), 'starts_decl': xml.startswith('<?xml'), 'enc_back': enc_back,
                     'root_ok': tag == full.tag and dict(attrib) == dict(full.attrib), 'xml_ascii': nx.to_xml(el, encoding='us-ascii').count('<?xml')}
         if k == 'validate':
             el = X.to_lxml(case['tree'])
@@ -293,6 +307,9 @@ class C17(Check):
             want = X.canon(X.drop_comments(io['mem']))
             if io['indep'] != want:
                 return ('C17:independent-parser-disagrees:' + k, 'xml.etree reads the serialised form differently')
+            bad = {k: v for k, v in (io.get('enc_back') or {}).items() if v != 'same'}
+            if bad:
+                return ('C17:declared-encoding-roundtrip', 'to_xml(tree, encoding=…) does not read back as the tree: %s' % bad)
             if io['ndecl'] != 1 or not io['starts_decl'] or io['xml_ascii'] != 1:
                 return ('C17:declaration-count', 'serialised form has %d XML declarations (ascii: %d)' % (io['ndecl'], io['xml_ascii']))
             if not io['root_ok']:
